@@ -17,10 +17,10 @@ import (
 )
 
 type seedMeta struct {
-	Property any      `json:"property"` // string or list
-	Name     string   `json:"name"`
-	Needs    string   `json:"needs_to_manifest"`
-	CaughtBy []string `json:"caught_by,omitempty"`
+	Property any    `json:"property"` // string or list
+	Name     string `json:"name"`
+	Needs    string `json:"needs_to_manifest"`
+	CaughtBy any    `json:"caught_by,omitempty"`
 }
 
 func (m *seedMeta) props() []string {
